@@ -305,7 +305,7 @@ func (f *g2lFn) call(c *ast.CallExpr) string {
 	if s, ok := f.callExt(c); ok { // go2lean_string.go: strings, make, Sprintf, primitives with pointer receivers
 		return s
 	}
-	if c.Ellipsis.IsValid() {
+	if c.Ellipsis.IsValid() && !f.g.refsOn() { // go2lean_refs.go: variadic functions
 		f.fail("variadic call `%s`", f.src(c))
 	}
 	ftv := f.g.info.Types[c.Fun]
@@ -327,6 +327,9 @@ func (f *g2lFn) call(c *ast.CallExpr) string {
 	}
 	sig := fn.Type().(*types.Signature)
 	if sig.Variadic() {
+		if f.g.refsOn() { // go2lean_refs.go
+			return f.variadicCall(c, fn)
+		}
 		f.fail("variadic function in `%s`", f.src(c))
 	}
 	key, local := f.calleeKey(fn)
